@@ -178,11 +178,16 @@ PROPS["C02"]["explanation"] = ("export_tabs proved against the documented tab-st
                                "followed by a blank (newline with terminals_one), then a newline (streams are modelled as the text written so far). "
                                "write_brackets_subtree, the export / TIGER-XML / discobrackets writers as a whole are bounded only.")
 
-_pb("C05", "contract-based deductive verification (pyvc) of the grouping loop of boyd_split (loop invariant over a list of lists), of the selection loop of raising and of the re-attachment steps of boyd_split and raising as block contracts; bounded stand-in against the reference ref_raise",
+_pb("C05", "contract-based deductive verification (pyvc) of the grouping loop of boyd_split (loop invariant over a list of lists), of the creation of one block node of boyd_split incl. the head-block recurrence, of the selection loop of raising and of the re-attachment steps of boyd_split and raising, as block contracts; bounded stand-in against the reference ref_raise",
     "The grouping loop of boyd_split is proved, for every well-formed node, to partition the children (ordered by leftmost "
     "token) into consecutive slices such that inside a slice each child starts at most one past the last token of its left "
     "neighbour and between two slices there is a gap - 'one block node per continuous block'. The selection loop of raising "
-    "is proved to list exactly the split nodes below the root that are not head blocks, in preorder, each once. The four `children.remove` "
+    "is proved to list exactly the split nodes below the root that are not head blocks, in preorder, each once. One iteration of "
+    "the block loop of boyd_split (raw heap in mid-surgery, the block's members distinct children of the constituent; the "
+    "statement subtree.children.remove(child) is left to the mover-step contract) creates a fresh copy of the constituent marked "
+    "split, with the constituent's head flag and block number i+1, appends it to the old parent, hands it exactly the block's "
+    "members in order, and marks it head block iff some member has `head` and is not a split node or is the head block of its "
+    "own split - the recurrence behind 'exactly one head block' - touching no other node's flags. The four `children.remove` "
     "steps of boyd_split and raising (detach of the split node, move of each child) keep parent/child links consistent "
     "(block contracts on the real statements). The transformations as a whole are outside the reach of pyvc (lazy generator "
     "consumed while the tree it walks is mutated) and are bounded only.",
